@@ -232,6 +232,62 @@ def body(ctx):
         except ValueError:
             pass
 
+        # ---------------- the whole corr pipeline through the model (ensemble statistic per forecast with NaN members
+        # skipped, forecasts without observation or without any member dropped, null filter, guard, coefficient)
+        ens2 = ens.copy()
+        if m > 1 and rng.random() < 0.5:
+            for _ in range(rng.randint(1, 3)):
+                ens2[rng.randrange(len(o)), rng.randrange(m)] = np.nan
+        if rng.random() < 0.15:
+            ens2[rng.randrange(len(o)), :] = np.nan
+        u = rng.random()
+        if u < 0.10:
+            ens2[rng.randrange(len(o)), rng.randrange(m)] = np.inf     # not NaN: kept by nanmean/nanmedian, removed by the null filter only
+        elif u < 0.14:
+            ens2[:, :] = np.inf                                        # nothing valid is left after the null filter
+        ctype = rng.choice(["Pearson", "Spearman"])
+        stat2 = rng.choice(["mean", "median"])
+        idx = ~np.isnan(o) & (~np.isnan(ens2)).any(axis=1)
+        if idx.sum() >= 2:
+            try:
+                with warnings.catch_warnings():
+                    warnings.simplefilter("ignore")
+                    implr = float(metrics.corr(o, ens2, trans, excl, stat=stat2, type=ctype))
+            except ValueError as e:
+                implr = "err noValidData" if "No valid data" in str(e) else "err " + str(e)[:40]
+            with np.errstate(all="ignore"), warnings.catch_warnings():
+                warnings.simplefilter("ignore")
+                to3 = trans.forward(o[idx])
+                te3 = trans.forward(ens2[idx, :])
+                ts3 = np.nanmean(te3, axis=1) if stat2 == "mean" else np.nanmedian(te3, axis=1)
+            # rows: the statistic itself (bit-for-bit for the median, a few ulp for numpy's pairwise mean)
+            r0 = rng.randrange(len(ts3))
+            reqs.append(f"ensstat {stat2} {C.flist(te3[r0])}")
+            checks.append(("ensstat", float(ts3[r0]), 1.0, {**case, "row": te3[r0].tolist(), "stat": stat2}))
+            a3, b3 = to3, ts3
+            if excl:
+                k3 = np.isfinite(a3) & np.isfinite(b3)
+                a3, b3 = a3[k3], b3[k3]
+            clean = len(a3) >= 2 and np.all(np.isfinite(a3)) and np.all(np.isfinite(b3))
+            if ctype == "Spearman" and clean:
+                ra, rb = midranks(a3), midranks(b3)
+                gate = np.std(ra) > 0 and np.std(rb) > 0 and well_conditioned(a3)
+                c3 = max(cond_number(ra), cond_number(rb))
+            elif clean:
+                gate = well_conditioned(a3) and np.std(b3) > 1e-6 * (abs(np.mean(b3)) + 1e-300)
+                c3 = max(cond_number(a3), cond_number(b3))
+            else:
+                # NaN/inf left in the series (no null filter): the answer is NaN whatever the rounding; an empty
+                # filtered series is the "no valid data" error
+                gate = (not excl and not np.all(np.isfinite(a3)) ) or (excl and len(a3) == 0)
+                gate = gate or (not excl and np.all(np.isfinite(a3)) and not np.all(np.isfinite(b3)))
+                c3 = 1.0
+            if gate:
+                reqs.append(f"corrfull {C.f2h(EPS)} {ctype} {stat2} {int(bool(excl))} {C.flist(to3)} {C.fmat(te3)}")
+                checks.append(("corrfull", implr, c3, {**case, "stat": stat2, "type": ctype, "ens": ens2.tolist()}))
+                ctx.count(("corrfull", ctype, stat2, bool(excl), tuple(to3), te3.tobytes()), clean,
+                          "corrfull/" + ("value" if clean else "nan_or_error"))
+
         # ---------------- oracle on the real code (independent of the model)
         tol = min(1e-6, 1e-9 * cond)
         if not holes:
@@ -418,6 +474,21 @@ def body(ctx):
             mv = None if rep == "none" else C.h2f(rep.split(" ")[1])
             iv = None if impl != impl else impl
             ok = sclose(iv, mv, cond, 2e-10 if kind != "kge" else 2e-9)
+        elif kind == "ensstat":
+            mv = None if rep == "none" else C.h2f(rep.split(" ")[1])
+            iv = None if impl != impl else impl
+            row = np.asarray(case["row"], dtype=float)
+            row = row[np.isfinite(row)]
+            ok = (iv is None and mv is None) or (iv is not None and mv is not None and (
+                (iv == mv) or (math.isinf(iv) or math.isinf(mv)) and (iv == mv or (iv != iv and mv != mv)) or
+                abs(iv - mv) <= 8 * 2.2e-16 * (np.mean(np.abs(row)) if len(row) else 1.0)))
+        elif kind == "corrfull":
+            if isinstance(impl, str):
+                ok = rep == impl
+            else:
+                mv = None if rep == "none" else (C.h2f(rep.split(" ")[1]) if rep.startswith("some") else "?")
+                iv = None if impl != impl else impl
+                ok = mv != "?" and sclose(iv, mv, cond, 2e-10)
         elif kind == "nse":
             ok = sclose(impl, C.h2f(rep), cond)
         elif kind == "conf":
@@ -433,7 +504,7 @@ def body(ctx):
             ctx.disagree(f"C04/{kind}: implementation and model differ",
                          {"request": req[:2000], "impl": impl, "model": rep[:2000], **case})
     ctx.extra["rule"] = __doc__.split("Cases:")[1].strip()
-    ctx.assumptions += ["numpy mean/std/corrcoef, pandas.crosstab, scipy spearmanr are external; Spearman correlation is not modelled",
+    ctx.assumptions += ["numpy mean/std/corrcoef, pandas.crosstab, scipy spearmanr are external (Spearman = Pearson correlation of the model's mid-ranks)",
                         "floating-point rounding: tolerance 2e-11 x conditioning (capped at 1e-5) between numpy's pairwise sums and the model's sequential sums"]
 
 
